@@ -87,6 +87,7 @@ func (e *Engine) VerifyFunc(fn *ssa.Function, opts VerifyOpts) (res *FuncResult)
 		ctx.assume(Neq(v, IntLit(0)))
 	}
 	f.entry = st
+	f.bindParamNames(ct)
 	if opts.Sweep {
 		if recv := fn.Signature.Recv(); recv != nil && len(fn.Params) > 0 {
 			if _, isPtr := f.subst(recv.Type()).Underlying().(*types.Pointer); isPtr {
@@ -112,7 +113,7 @@ func (e *Engine) VerifyFunc(fn *ssa.Function, opts VerifyOpts) (res *FuncResult)
 					ctx.trusted["standing precondition: option slices (variadic functional options) contain no nil function"] = true
 				}
 			}
-			if tmpl := standingInvariant(e.sorts.typeName(pt)); tmpl != "" {
+			if tmpl := standingInvariant(e.sorts.typeName(pt)); tmpl != "" && p.Name() != "_" && p.Name() != "" {
 				src := strings.ReplaceAll(tmpl, "$p", p.Name())
 				ex, err := ParseSpecExpr(src)
 				if err != nil {
@@ -146,7 +147,6 @@ func (e *Engine) VerifyFunc(fn *ssa.Function, opts VerifyOpts) (res *FuncResult)
 			f.ghosts[g.Name] = v
 		}
 	}
-	f.bindParamNames(ct)
 	if ct != nil && (ct.ModifiesSet || ct.Fresh) {
 		f.modLocs = f.evalModLocs(ct, st)
 		f.checkFrame = true
@@ -394,6 +394,10 @@ func standingInvariant(typeName string) string {
 		return "$p != nil && wf($p.Objects)"
 	case typeName == "ast.Schemas" || typeName == "[]*ast.Schema":
 		return "forall j: int :: 0 <= j && j < len($p) ==> $p[j] != nil && wf($p[j].Objects)"
+	case typeName == "*compiler.Visitor":
+		return "$p != nil && wf($p.newObjects)"
+	case typeName == "*ast.BuilderVisitor":
+		return "$p != nil"
 	case strings.HasPrefix(typeName, "*orderedmap.Map["):
 		return "$p != nil ==> wf($p)"
 	}
